@@ -33,6 +33,7 @@ type mItem struct {
 	isBlock bool
 	name    string // attribute name or block type
 	expr    string // attribute: blank-stripped source text of the expression
+	raw     bool   // attribute last written by SetAttributeRaw (its tokens are not analysed, by design)
 	labels  []string
 	body    *mBody
 	// touched: an edit targeted this item (or, for blocks, something inside it)
@@ -216,6 +217,44 @@ func parsedSig(src []byte, b *hclsyntax.Body, sb *strings.Builder) {
 			sb.WriteString(p.txt)
 		}
 	}
+}
+
+// variablesAgree compares, attribute by attribute, the traversals exposed by
+// Expression.Variables() of the edited tree with those of the tree loaded from
+// its own serialisation (attributes written as raw tokens are not analysed by
+// hclwrite, by design, and are skipped).
+func variablesAgree(model *mBody, loaded *hclwrite.Body, path string) string {
+	la := loaded.Attributes()
+	ea := model.w.Attributes()
+	lb := loaded.Blocks()
+	bi := 0
+	for _, it := range model.items {
+		if it.isBlock {
+			if bi < len(lb) && it.body != nil {
+				if m := variablesAgree(it.body, lb[bi].Body(), fmt.Sprintf("%s/%s[%d]", path, it.name, bi)); m != "" {
+					return m
+				}
+			}
+			bi++
+			continue
+		}
+		a, l := ea[it.name], la[it.name]
+		if it.raw || a == nil || l == nil {
+			continue
+		}
+		sig := func(at *hclwrite.Attribute) string {
+			var parts []string
+			for _, tr := range at.Expr().Variables() {
+				parts = append(parts, stripBlank(tr.BuildTokens(nil).Bytes()))
+			}
+			sort.Strings(parts)
+			return strings.Join(parts, " ")
+		}
+		if se, sl := sig(a), sig(l); se != sl {
+			return fmt.Sprintf("%s.%s: Expr().Variables() of the edited tree gives [%s], of the reloaded file [%s]", path, it.name, se, sl)
+		}
+	}
+	return ""
 }
 
 func clobberLabels(ls []string) {
@@ -457,14 +496,16 @@ func c12Case(c *core.Case) {
 				b.owner.lostBraceNewline = true
 			}
 		}
+		rawWrite := false
 		setAttr := func(name, exprText string, apply func()) {
 			appendsInto(name)
 			apply()
 			if it := b.attr(name); it != nil {
 				it.expr = exprText
 				it.touched = true
+				it.raw = rawWrite
 			} else {
-				ni := &mItem{name: name, expr: exprText, touched: true}
+				ni := &mItem{name: name, expr: exprText, touched: true, raw: rawWrite}
 				b.items = append(b.items, ni)
 				c12Parent[ni] = b
 			}
@@ -483,8 +524,13 @@ func c12Case(c *core.Case) {
 		case 2:
 			name := pickAttrName()
 			tr := hcl.Traversal{hcl.TraverseRoot{Name: gen.Pick(r, []string{"var", "local", "x"})}, hcl.TraverseAttr{Name: gen.Pick(r, []string{"a", "b"})}}
-			if gen.Chance(r, 0.5) {
+			switch r.Intn(4) {
+			case 0:
 				tr = append(tr, hcl.TraverseIndex{Key: cty.NumberIntVal(int64(r.Intn(5)))})
+			case 1:
+				tr = tr[:1] // a bare root name
+			case 2:
+				tr = append(tr, hcl.TraverseIndex{Key: cty.StringVal("k")}, hcl.TraverseAttr{Name: "c"})
 			}
 			txt := stripBlank(hclwrite.TokensForTraversal(tr).Bytes())
 			history = append(history, fmt.Sprintf("%s: SetAttributeTraversal(%q, %s)", bodyPath(b), name, txt))
@@ -504,6 +550,7 @@ func c12Case(c *core.Case) {
 			}
 			history = append(history, fmt.Sprintf("%s: SetAttributeRaw(%q, %s)", bodyPath(b), name, raw))
 			record()
+			rawWrite = true
 			setAttr(name, stripBlank([]byte(raw)), func() { b.w.SetAttributeRaw(name, wt) })
 			// the caller re-uses its token buffer for something else: the file
 			// keeps what it was given
@@ -710,6 +757,13 @@ func c12Case(c *core.Case) {
 		if m := accessorCheck(root); m != "" {
 			c.Violation("accessor-disagrees/"+opName, fmt.Sprintf("after step %d (%s): %s", step+1, last, m), nil)
 			return
+		}
+		// (d') the variable references the edited tree exposes are those of the file it serialises to
+		if fresh, fd := hclwrite.ParseConfig(out, "out.hcl", hcl.InitialPos); !fd.HasErrors() {
+			if m := variablesAgree(root, fresh.Body(), "root"); m != "" {
+				c.Violation("accessor-disagrees/variables/"+opName, fmt.Sprintf("after step %d (%s): %s\n bytes: %q", step+1, last, m, trunc(string(out), 300)), nil)
+				return
+			}
 		}
 		// (e) untouched items keep their tokens
 		if m := untouchedCheck(root, stripBlank(out)); m != "" {
